@@ -46,7 +46,7 @@ func init() {
 	reg("C16", ruleEndStream, ruleStepFraming)
 	reg("C17", ruleEmptyBatchGuard, ruleStepFraming)
 	reg("C15", ruleStateMachineSchemaCheck, ruleMarshalCoverage)
-	reg("C03", ruleEmittedSymbols, rulePlan)
+	reg("C03", ruleEmittedSymbols, rulePlan, ruleJsonKinds)
 	reg("C08", ruleEmittedSymbols, ruleSwitchDefaults(backendFiles, "P4", 25), ruleReservedTables, ruleIdentifierHelpers, ruleDependenciesFirst, ruleOptionGating, ruleUniquenessVsMangling)
 	reg("C19", ruleCommonTypeMap, ruleEmitterSiblings, ruleParenthesisation, ruleOperatorTokens, rulePromotionNotBypassed)
 	reg("C13", ruleAliasTable, ruleSpellingErased, ruleShorthandTwins, ruleDocCommentSuffix, ruleTypeTags, ruleSchemaCanonical, rulePrunes(topoSortFiles, "V5", 2))
@@ -54,7 +54,7 @@ func init() {
 	reg("C02", ruleJsonKinds, ruleUnionTagDecision, ruleKindTests, ruleOptionalFieldSymmetry)
 	reg("C14", rulePlan, ruleRecordOrder, ruleOptionalFieldSymmetry)
 	reg("C10", rulePairAccess, ruleConstIndex(frontEndNoEvolution, "P2", 30), ruleMakeBounds, ruleErrorProvenance, ruleBreakInSwitchInLoop, rulePositions, ruleNodeLiteralsPositioned, ruleBigIndex, ruleAborts(frontEndNoEvolution, "P4", 25),
-		ruleE3(frontScope, "E3"))
+		ruleE3(frontScope, "E3"), ruleCollectPackages)
 	reg("C20", ruleWatchSerialised, ruleWatchRecovers, ruleChdirRestored)
 	reg("C18", ruleCollectPackages, ruleNamespaceFlattening, ruleE2(frontScope, "E2"), ruleE5(frontScope, "E5"))
 	reg("C11", ruleValidateBeforeWrite, ruleWhoMayWrite, ruleE1(inMod, "E1"), ruleE2(inMod, "E2"), ruleE5(inMod, "E5"))
